@@ -130,8 +130,13 @@ func (c *Ctx) buildInto(dst reflect.Value, s *SExp) {
 			c.buildInto(dst.Index(i), s.List[1+i])
 		}
 	case reflect.Struct:
-		for i := 0; i < t.NumField(); i++ {
-			c.buildInto(dst.Field(i), s.List[1+i])
+		// blank fields are not part of the wire form: they stay zero
+		for i, j := 0, 1; i < t.NumField(); i++ {
+			if t.Field(i).Name == "_" {
+				continue
+			}
+			c.buildInto(dst.Field(i), s.List[j])
+			j++
 		}
 	case reflect.Map:
 		if !s.IsL {
@@ -270,6 +275,9 @@ func (o *Obs) obs(sb *strings.Builder, v reflect.Value) {
 	case reflect.Struct:
 		sb.WriteString("(st")
 		for i := 0; i < v.NumField(); i++ {
+			if v.Type().Field(i).Name == "_" {
+				continue
+			}
 			sb.WriteString(" ")
 			o.obs(sb, v.Field(i))
 		}
